@@ -36,6 +36,7 @@ type Case struct {
 	ExprB64  string                 `json:"expr_b64,omitempty"` // expression bytes when they are not valid UTF-8
 	Doc      string                 `json:"doc,omitempty"` // JSON text
 	Extra    map[string]interface{} `json:"extra,omitempty"`
+	Before   []string               `json:"before,omitempty"` // unrelated library calls made first (poison_test.go); nil: chosen from the case's hash
 	Note     string                 `json:"note,omitempty"`     // filled on failure: what was violated
 	Expected string                 `json:"expected,omitempty"` // filled on failure
 	Got      string                 `json:"got,omitempty"`      // filled on failure
@@ -290,7 +291,14 @@ func run(t failer, c Case) Result {
 	if !ok {
 		t.Fatalf("HARNESS-ERROR: no predicate for kind %q", c.Kind)
 	}
+	if c.Before == nil && !poisonOff {
+		c.Before = poisonFor(c)
+	}
+	applyBefore(c.Before)
 	r := pred(c)
+	if len(c.Before) > 0 {
+		r.class("after-hostile-calls")
+	}
 	statsFor(c.Property).Record(c, r)
 	if len(r.Discard) >= 8 && r.Discard[:8] == "HARNESS:" {
 		t.Fatalf("HARNESS-ERROR: %s: %s (expr=%q doc=%s)", r.Discard, r.Violation, c.Expr, c.Doc)
